@@ -762,13 +762,10 @@ func (t *Teamserver) SendEvent(id string, pk packager.Package) error {
 		client.Mutex.Lock()
 
 		err = client.Connection.WriteMessage(websocket.BinaryMessage, buffer.Bytes())
+		client.Mutex.Unlock()
 		if err != nil {
-			// TODO: comment this line out as it seems to crash the server
-			//t.Clients[id].Mutex.Unlock()
 			return err
 		}
-
-		client.Mutex.Unlock()
 
 	} else {
 		return errors.New(fmt.Sprintf("client (%v) doesn't exist anymore", colors.Red(id)))
